@@ -19,7 +19,8 @@ from harness import c06_fakes as F
 
 R_NAME = "ctxR"
 FAULTS = ("marker", "marker-insert", "oversize", "undecodable", "notmsg", "nohs", "hs2", "hsdir", "badsrc",
-          "baddst", "hsnone-hs", "hsnone-msg", "lenlie", "wrongname", "eof-mid", "maxhdr")
+          "baddst", "hsnone-hs", "hsnone-msg", "lenlie", "wrongname", "eof-mid", "maxhdr",
+          "hs-marker", "hs-oversize", "hs-garbage")
 
 
 def _mods():
@@ -101,7 +102,22 @@ class ScnGen:
         if fault in ("hsnone-hs", "hsnone-msg"):
             hs_name = None
         if fault != "nohs":
-            pieces.append(F.mkframe(pickle.dumps(mk_hs(hs_name, hs_server, rng.choice([None, None, "0.0.1"])))))
+            hp = pickle.dumps(mk_hs(hs_name, hs_server, rng.choice([None, None, "0.0.1"])))
+            if maxv < self.real_max and rng.random() < 0.3:
+                # a handshake of exactly the maximum size (or one byte off)
+                target = rng.choice([maxv, maxv, maxv - 1, maxv + 1])
+                k = pad_to(lambda k: mk_hs(hs_name, hs_server, "9" * (k + 1)), target)
+                if k is not None:
+                    hp = pickle.dumps(mk_hs(hs_name, hs_server, "9" * (k + 1)))
+            hf = F.mkframe(hp)
+            if fault == "hs-marker":
+                hf = bytes([rng.choice([0x00, 0x4f, 0x51, 0x70, 0xff])]) + hf[1:]
+            elif fault == "hs-oversize":
+                v = rng.choice([maxv + 1, len(hp) + (1 << 56), len(hp) + (1 << 32), 2 ** 64 - 1])
+                hf = b"P" + v.to_bytes(8, "little") + hp
+            elif fault == "hs-garbage":
+                hf = F.mkframe(rng.choice([hp[:len(hp) // 2], b"", b"\xff" + hp[1:], pickle.dumps(("hs", hs_name))]))
+            pieces.append(hf)
             meaning.append("hs")
         alias_for_msgs = R_NAME
         idx_fault = rng.randint(0, nmsgs) if fault else None
@@ -160,6 +176,11 @@ class ScnGen:
             v = rng.choice([maxv + 1, maxv + 1, maxv + 2, maxv + 255, maxv + 256, 2 ** 32, 2 ** 63, 2 ** 64 - 1,
                             maxv * 256 if maxv * 256 < 2 ** 64 else 2 ** 40])
             tail = good[:rng.choice([0, 0, 1, 20])]
+            if rng.random() < 0.4:
+                # the low-order bytes alone would be the length of a perfectly good frame that follows
+                js = [j for j in range(1, 8) if len(good) + (1 << (8 * j)) > maxv]
+                v = len(good) + (rng.randint(1, 255) << (8 * rng.choice(js)))
+                tail = good
             return b"P" + v.to_bytes(8, "little") + tail, "oversize"
         if fault == "maxhdr":     # a header announcing exactly the maximum: legal, the connection must stay
             return b"P" + maxv.to_bytes(8, "little"), "maxhdr"
@@ -186,7 +207,7 @@ class ScnGen:
         if fault in ("hs2", "hsnone-hs"):
             nm = rng.choice([peer, peer, None, "other"]) if fault == "hsnone-hs" else rng.choice([peer, peer, "other"])
             return F.mkframe(pickle.dumps(mk_hs(nm, rng.choice([server, server, not server])))), "hs2"
-        if fault in ("hsdir", "wrongname", "eof-mid"):
+        if fault in ("hsdir", "wrongname", "eof-mid", "hs-marker", "hs-oversize", "hs-garbage"):
             return None, fault
         if fault == "hsnone-msg":
             return F.mkframe(good), "msg-after-none-hs"
